@@ -14,18 +14,18 @@ TEXT = {
     "C11": {"engine": "E1+E3", "design_ref": "4/C11", "technique": "runtime monitoring: probe oracle (can_put/can_get vs a reservation issued in the same state), ideal buffer model for put+delay",
             "level": "Held on every probe and every buffered item observed.", "note": _STORE_NOTE},
     "C15": {"engine": "E3", "design_ref": "4/C15", "technique": "runtime monitoring: observed first-attempt / routing sequences vs policy reference, consultation counting of wrapped selectors",
-            "level": "Held on every monitored node: ROUND_ROBIN cyclic, constant obeyed, selector consulted once per item and obeyed, FIRST_AVAILABLE never skips a granted lower-index edge, recorded history equals routing.", "note": _FN},
+            "level": "Held on every monitored node: ROUND_ROBIN cyclic, constant obeyed, selector consulted once per item and obeyed, FIRST_AVAILABLE never skips a granted lower-index edge (nor one whose only obstacle is a reservation that an availability query left behind), edge indices are those of the declared order, recorded history equals routing.", "note": _FN},
     "C16": {"engine": "E3", "design_ref": "4/C16", "technique": "runtime monitoring: provenance ledger + observing list behind Pallet.items",
             "level": "Held on every pallet put by a combiner and every pallet unloaded by a splitter in the monitored runs.", "note": _FN},
     "C17": {"engine": "E3", "design_ref": "4/C17", "technique": "runtime monitoring: independent integration of processing/blocked/idle intervals from observed pulls, offers and pushes vs reported state times",
             "level": "Held on every monitored node after finalisation at T (sums, set-up charge, truthfulness within 1e-5*T).", "note": _FN},
     "C12": {"engine": "E4+E3", "design_ref": "4/C12", "technique": "runtime monitoring: kinematic reference from put/ready/get events (order, capacity, entry spacing, minimum and exact travel time)",
-            "level": "Held on every monitored journey, except the listed known findings (ragged geometry; order after an overlap on the accumulating continuous belt).", "note": _FN},
+            "level": "Held on every monitored journey (uniform and mixed item lengths), except the listed known findings (ragged geometry; order after an overlap on the accumulating continuous belt).", "note": _FN},
     "C13": {"engine": "E4+E3", "design_ref": "4/C13", "technique": "runtime monitoring: stall intervals reconstructed from boundary events; moved-time equation (non-accumulating) and ideal accumulating reference r_k = max(p_k+T, g_(k-1)+s)",
             "level": "Non-accumulating continuous belt: held on every monitored journey. Accumulating continuous belt and both slotted modes deviate (known findings, keyed by mechanism); anything else is a violation.", "note": _FN},
     "C20": {"engine": "E8+E3+E1", "design_ref": "4/C20", "technique": "runtime monitoring: kernel monitor (exceptions escaping step(), events per instant) over an exhaustive configuration matrix, the invalid-configuration table and random models",
             "level": "Matrix and invalid table are enumerated completely (exhaustive for that finite space); random factories and store histories are sampled. Crashes are keyed by (exception type, raising function, message pattern).", "note": _FN},
-    "C19": {"engine": "E7", "design_ref": "4/C19", "technique": "runtime monitoring: differential replay of the same model (in-process, unmonitored, fresh interpreters with other hash seeds) + clock monotonicity assertion at every kernel step",
+    "C19": {"engine": "E7", "design_ref": "4/C19", "technique": "runtime monitoring: differential replay of the same model (in-process, unmonitored, fresh interpreters with other hash seeds) and of the same store-level client history (forgetful clients whose freed tokens / items have their addresses re-used vs clients that keep every object alive, and a fresh interpreter) + clock monotonicity assertion at every kernel step",
             "level": "Held on every compared pair of runs; also guards the harness (monitored vs unmonitored statistics identical).", "note": _FN},
     "C18": {"engine": "E3+E1", "design_ref": "4/C18", "technique": "runtime monitoring: shadow occupancy integral, event-exact counter comparison, cycle-time bounds",
             "level": "Held on every monitored edge, node and sink.", "note": _FN},
